@@ -57,7 +57,7 @@ theorem bt_scan_named (c : Cfg) (hc : Proved c) (t : Tree) (h : t.ok = true) (p 
     t.scan c.ascGt (some p) none cont = visited cont (specScan t.inorder .asc (some p) false) ∧
     t.scan c.descLe (some p) none cont = visited cont (specScan t.inorder .desc (some p) true) ∧
     t.scan c.descLt (some p) none cont = visited cont (specScan t.inorder .desc (some p) false) := by
-  obtain ⟨h1, h2, h3, h4, _, _, _⟩ := hc
+  obtain ⟨h1, h2, h3, h4, _, _, _, _⟩ := hc
   simp [Tree.scan, Tree.scanWith, h1, h2, h3, h4, Arg.eval, bt_scan_spec t h, effIncl, runCb_collect]
 
 /-- the vendored scans without a start pivot / with a stop bound -/
@@ -82,7 +82,7 @@ theorem bt_iterwalk_spec (c : Cfg) (hc : Proved c) (t : Tree) (h : t.ok = true) 
     wAscendGt c t k f n = .items (((specScan t.inorder .asc (some k) false).filter f).take n) ∧
     wDescendLte c t k f n = .items (((specScan t.inorder .desc (some k) true).filter f).take n) ∧
     wDescendLt c t k f n = .items (((specScan t.inorder .desc (some k) false).filter f).take n) := by
-  obtain ⟨h1, h2, h3, h4, h5, _, h7⟩ := hc
+  obtain ⟨h1, h2, h3, h4, h5, _, h7, _⟩ := hc
   cases n with
   | zero => simp [wAscendGte, wAscendGt, wDescendLte, wDescendLt, iterWalk]
   | succ m =>
@@ -387,7 +387,7 @@ example : cowDemo.1.owned cowDemo.2.2 = (0, 4) ∧ (cowDemo.2.1.owned cowDemo.2.
 
 /-- the configuration found on today's tree -/
 def cfgToday : Cfg := ⟨⟨.asc, .pivot, .nil, true, false⟩, ⟨.asc, .pivot, .nil, false, false⟩,
-    ⟨.desc, .pivot, .nil, true, false⟩, ⟨.desc, .pivot, .nil, false, false⟩, .ge, 2, .capped⟩
+    ⟨.desc, .pivot, .nil, true, false⟩, ⟨.desc, .pivot, .nil, false, false⟩, .ge, 2, .capped, .direct⟩
 
 example : Proved cfgToday := by decide
 example : Proved { cfgToday with limitCmp := .eq, wrapperDegree := 3 } := by decide
@@ -439,6 +439,21 @@ theorem not_proved_eager_prealloc : ¬ Proved { cfgToday with prealloc := .eager
 /-- the capped pre-sizing gives the specified result for the same limit -/
 example : wAscendGte cfgToday sampleTree 6 (fun _ => true) 9223372036854775807 =
     .items [⟨6, 6⟩, ⟨7, 7⟩, ⟨9, 9⟩, ⟨10, 10⟩] := by decide +kernel
+
+/-! ### the package's own item type: `btree.Int` -/
+
+/-- `Int.Less` as written (for every `Proved` configuration) is the order of the integers the keys denote — so a tree of
+    `btree.Int` items is an instance of the model with `key := a.toInt`, for all 2^64 keys, the extremes included -/
+theorem bt_int_less_is_order (c : Cfg) (hc : Proved c) (a b : BitVec 64) :
+    intLessK c.intLess a b = decide (a.toInt < b.toInt) := by
+  have h : c.intLess = .direct := hc.2.2.2.2.2.2.2
+  rw [h]; simp [intLessK, BitVec.slt]
+
+/-- the subtraction idiom is not that order: `MinInt64 - 1` wraps to `MaxInt64` -/
+theorem witness_int_less_subtract :
+    intLessK .subtract (BitVec.intMin 64) 1#64 = false ∧ (BitVec.intMin 64).toInt < (1#64).toInt := by decide
+
+theorem not_proved_int_less_subtract : ¬ Proved { cfgToday with intLess := .subtract } := by decide
 
 theorem not_proved_limit_gt : ¬ Proved { cfgToday with limitCmp := .gt } := by decide
 theorem not_proved_ascGt_inclusive : ¬ Proved { cfgToday with ascGt := ⟨.asc, .pivot, .nil, true, false⟩ } := by decide
